@@ -532,9 +532,18 @@ func TestReplay(t *testing.T) {
 	var kind struct {
 		Model   bool `json:"model"`
 		Factory bool `json:"factory"`
+		Slow    bool `json:"slow_persistent_read"`
 	}
 	if _, err := vkit.LoadReplay(path, &kind); err != nil {
 		t.Fatal(err)
+	}
+	if kind.Slow {
+		var sc SlowCase
+		vkit.LoadReplay(path, &sc)
+		if key, detail := runSlow(sc); key != "" {
+			vkit.Violation(t, key, detail, sc)
+		}
+		return
 	}
 	if kind.Factory {
 		var fc FCase
